@@ -74,7 +74,7 @@ def main(ctx):
 
     def run(label, c, **kw):
         return recipe.tlc_only(label, 'Auth', constants=c, invariants=INV, properties=PROPS,
-                               timeout=1500, heap='4g', **kw)
+                               timeout=1500, heap='4g', budget_ok=True, **kw)
     with ThreadPoolExecutor(3) as ex:
         fs = ex.submit(run, 'auth-small', small if not thorough else consts(['k1', 'k2'], ['k2'], modes, 2),
                        emit=True)
